@@ -161,14 +161,18 @@ def _p1_as_dict(vc):
 _SHAPES = [(a, b, c) for a in (False, True) for b in (False, True) for c in (False, True)]
 
 
-def _p1_event(vc):
+def _p1_event(vc, as_operator=False):
     clock = Clock()
     now0 = clock.now
     own = vc.int('own.priority')
     me = vc.int('own.identity')
     pname = vc.str('settings.peering.name')
     oname = vc.str('object.name')
-    autoclean = vc.bool('autoclean')
+    # as_operator: the call shape of orchestration.spawn_missing_peerings (the only real call site) -- `autoclean` is
+    # NOT passed and the operator's own toggle always is; the operator then has to clean up ("expired records of
+    # others are cleaned up").  Otherwise an explicit argument decides, and the toggle is optional.
+    autoclean_arg = None if as_operator else vc.bool('autoclean')
+    autoclean = True if as_operator else autoclean_arg
     recs = ext.Records('peers', dict(id='int', prio='int', life='real', seen='real',
                                      has_prio='bool', has_life='bool', has_seen='bool'))
 
@@ -206,7 +210,7 @@ def _p1_event(vc):
     peering_settings.name = pname
     settings = Opaque('settings', peering=peering_settings)
     resource, namespace = Opaque('resource'), Opaque('namespace')
-    with_toggle = vc.nondet(2, 'conflicts_found: None / toggle') == 1
+    with_toggle = True if as_operator else vc.nondet(2, 'conflicts_found: None / toggle') == 1
     was_on = vc.bool('conflicts_found@pre') if with_toggle else None
     toggle = ToggleStub(vc, was_on) if with_toggle else None
     pressure = StubEvent('stream_pressure')
@@ -242,10 +246,11 @@ def _p1_event(vc):
         clock.advance()
         pressure.havoc()
     raised = None
+    opt_kw = {} if as_operator else {'autoclean': autoclean_arg}
     try:
         vc.drive(ld.fn(raw_event=raw_event, namespace=namespace, resource=resource, identity=me, settings=settings,
-                       autoclean=autoclean, stream_pressure=pressure, conflicts_found=toggle,
-                       resource_indexed=None, operator_indexed=None, consistency_time=None), on_suspend=on_suspend)
+                       stream_pressure=pressure, conflicts_found=toggle,
+                       resource_indexed=None, operator_indexed=None, consistency_time=None, **opt_kw), on_suspend=on_suspend)
     except _ApiFailure as e:
         raised = e
     tr = vc.trace
@@ -352,7 +357,8 @@ def P1(vc):
     record is dead, with exactly the dead records; exactly one interruptible sleep (wakeup = stream_pressure)
     whose end is the earliest deadline of the blocking peers (no delay when there is none); touch() (renewing,
     own identity) iff blocked and the sleep was not interrupted, after the sleep; failures of clean/touch propagate.
-    Peer is used by contract in scenario `event`.
+    Peer is used by contract in scenario `event`.  Here `autoclean` is always passed explicitly and the toggle is
+    optional; the call shape of the operator itself (autoclean omitted => on, toggle present) is harness P1d.
     """
     k = vc.nondet(3, 'scenario: peer / as_dict / event')
     if k == 0:
@@ -360,6 +366,25 @@ def P1(vc):
     if k == 1:
         return _p1_as_dict(vc)
     return _p1_event(vc)
+
+
+@harness('P1d', targets=['kopf._core.engines.peering.process_peering_event'], props=['C13'],
+         clauses=['event.foreign_ignored', 'event.toggle', 'event.clean_exactly_dead', 'event.wakeup',
+                  'event.touch_iff_uninterrupted', 'event.failures_propagate'],
+         canaries=['canary.event_never_cleans', 'canary.event_never_touches', 'canary.event_never_pauses'],
+         trusted=['iso8601.parse_date: total function from the timestamps kopf writes (isoformat) to instants',
+                  'datetime.now(): the ghost clock; it advances only at suspension points',
+                  'aiotoggles.Toggle.is_on/is_off/turn_to: a boolean cell written only by this coroutine (one worker per peering object)',
+                  'aiotime.sleep by contract T1 (pyvc.stubs.make_sleep); min() of the delays by its defining property'])
+def P1d(vc):
+    """
+    process_peering_event AS THE OPERATOR CALLS IT (orchestration.spawn_missing_peerings binds conflicts_found,
+    namespace, resource, settings, identity; the worker adds raw_event, stream_pressure and the indexing arguments):
+    `autoclean` is not passed.  The contract is that of P1, scenario `event`, with autoclean = on -- C13: "expired
+    records of others are cleaned up": clean() is called (once) iff some record is dead, with exactly the dead
+    records -- and with the toggle always present.  Same stubs and trusted base as P1.
+    """
+    return _p1_event(vc, as_operator=True)
 
 
 # ------------------------------------------------------------------------------------ P2
